@@ -10,7 +10,7 @@ import numpy as np
 
 from .. import nncommon as nc
 from .. import tracecommon as tcm
-from ..core import MachineryFailure
+from ..core import MachineryFailure, mix
 
 INVS = ("LabelsAreComponents", "ReportedNonSingletons", "SingleLinkageIsComponents", "PartitionOK")
 TRACE_CONSTS = "  MaxNodes = 1\n  MaxD = 0\n  Thresholds = {0}\n  Kinds = {\"cc\"}\n  Mutations = {}"
@@ -49,11 +49,28 @@ def partition_of(pairs):
 
 def run_graph(nodes, triplets, method, **kw):
     """graph_clustering on the real code -> (pairs [(position1based, cluster)], labels_ok)"""
+    import pandas as pd
     import pyrepseq as prs
-    df = prs.graph_clustering(triplets, nodes, clustering=method, **kw)
-    pos = [int(i) for i in df.index]
-    labels_ok = all(df["node"].iloc[k] == nodes[p] for k, p in enumerate(pos)) and list(df.columns)[:2] == ["node", "cluster"]
-    return [[p + 1, int(c)] for p, c in zip(pos, df["cluster"])], labels_ok
+    plain = list(nodes)
+    n = len(plain)
+    cont = kw.pop("container", "list")
+    given = {"list": lambda: list(plain), "tuple": lambda: tuple(plain), "ndarray": lambda: np.array(plain, dtype=object),
+             "series": lambda: pd.Series(plain, dtype=object),
+             "series_perm": lambda: pd.Series(plain, index=list(range(n))[::-1], dtype=object),
+             "series_shift": lambda: pd.Series(plain, index=range(7, 7 + n), dtype=object),
+             "series_str": lambda: pd.Series(plain, index=[f"cell{i}" for i in range(n)], dtype=object)}[cont]()
+    df = prs.graph_clustering(triplets, given, clustering=method, **kw)
+    if isinstance(given, pd.Series):
+        where = {lab: i for i, lab in enumerate(given.index)}          # rows are labelled like the caller's Series
+        pos = [where.get(lab, -1) for lab in df.index]
+    else:
+        pos = [int(i) for i in df.index]
+    labels_ok = (all(0 <= p < n for p in pos) and all(df["node"].iloc[k] == plain[p] for k, p in enumerate(pos))
+                 and list(df.columns)[:2] == ["node", "cluster"] and not df["cluster"].isna().any())
+    return [[p + 1, int(c)] for p, c in zip(pos, df["cluster"]) if 0 <= p < n and c == c], labels_ok
+
+
+NODE_CONTAINERS = ["list", "tuple", "ndarray", "series", "series_perm", "series_shift", "series_str"]
 
 
 def triplets_from_edges(edges, rng, as_array, orient="both"):
@@ -77,18 +94,19 @@ def replay_cc(ctx, doc, k):
     orient = ("both", "ji", "mixed", "ij")[k % 4]
     trip = triplets_from_edges(edges, ctx.rng, k % 3 == 0, orient)
     want = partition_of([(i, doc["label"][i - 1]) for i in doc["reported"]])
-    rp = dict(kind="replay", doc=doc)
+    rp = dict(kind="replay", doc=doc, k=k)
     ctx.case(dict(fn="graph_clustering/cc", n=n, edges=edges), nontrivial=len(edges) > 0 and len(doc["reported"]) < n)
     try:
-        pairs, labels_ok = run_graph(nodes, trip, "cc")
+        cont = NODE_CONTAINERS[(k // 5) % len(NODE_CONTAINERS)]
+        pairs, labels_ok = run_graph(nodes, trip, "cc", container=cont)
     except Exception as e:      # noqa: BLE001
         ctx.violation(f"graph_clustering/cc/raised:{type(e).__name__}" + ("/no-edges" if not edges else ""),
                       f"graph_clustering({list(map(tuple, trip)) if len(trip) else []}, {nodes}, 'cc') raised {type(e).__name__}: {e}"[:400], rp)
         return
     if partition_of(pairs) != want:
-        ctx.violation("graph_clustering/cc/not_components", f"graph_clustering(edges={edges}, n={n}) clusters {sorted(map(sorted, partition_of(pairs)))} want {sorted(map(sorted, want))}", rp)
+        ctx.violation("graph_clustering/cc/not_components", f"graph_clustering(edges={edges}, n={n}, nodes as {cont}) clusters {sorted(map(sorted, partition_of(pairs)))} want {sorted(map(sorted, want))}", rp)
     if not labels_ok:
-        ctx.violation("graph_clustering/cc/labels_not_callers", f"graph_clustering(edges={edges}, nodes={nodes}): node labels are not the caller's", rp)
+        ctx.violation("graph_clustering/cc/labels_not_callers", f"graph_clustering(edges={edges}, nodes={nodes} as {cont}): node labels are not the caller's", rp)
 
 
 def replay_sl(ctx, doc, k):
@@ -109,7 +127,7 @@ def replay_sl(ctx, doc, k):
         def calc_pdist_vector(self, xs):
             xs = list(xs)
             return np.array([float(dm[(xs[i], xs[j])]) for i in range(len(xs)) for j in range(i + 1, len(xs))])
-    rp = dict(kind="replay", doc=doc)
+    rp = dict(kind="replay", doc=doc, k=k)
     ctx.case(dict(fn="hierarchical_clustering/single", n=n, D=doc["D"], t=t), nontrivial=len(doc["part"]) not in (1, n))
     try:
         link, flat = prs.hierarchical_clustering(list(range(1, n + 1)), metric=Table(), linkage_kws=dict(method="single"),
@@ -152,7 +170,7 @@ def make_sessions(ctx, nses):
             ev = dict(op="Graph", method=method, raised=False, clusters=[], labels_ok=True)
             try:
                 kw = dict(objective_function="modularity") if method == "leiden" else {}
-                ev["clusters"], ev["labels_ok"] = run_graph(seqs, trip, method, **kw)
+                ev["clusters"], ev["labels_ok"] = run_graph(seqs, trip, method, container=NODE_CONTAINERS[sid % len(NODE_CONTAINERS)], **kw)
             except Exception as e:      # noqa: BLE001
                 ev.update(raised=True, exc=f"{type(e).__name__}: {e}"[:200])
             out.append(dict(sid=sid, kind="cc", n=n, edges=[list(e) for e in edges], seqs=[], events=[ev], desc=dict(seqs=seqs, k=k, method=method, noedges=not edges)))
@@ -258,7 +276,7 @@ def run(ctx):
             k += 1
             if q and k % 3:
                 continue
-            replay_sl(ctx, doc, k)
+            replay_sl(ctx, doc, mix(k))
             ctx.traces += 1
     if not q:
         run_cfg(ctx, "sl5", cfg_text(["sl"], maxnodes=5, maxd=1, thresholds=(0, 1), emit=False))
@@ -308,7 +326,7 @@ def replay(doc):
     ctx._known = []
     r = doc["replay"]
     if r.get("kind") == "replay":
-        (replay_cc if r["doc"]["kind"] == "cc" else replay_sl)(ctx, r["doc"], 1)
+        (replay_cc if r["doc"]["kind"] == "cc" else replay_sl)(ctx, r["doc"], r.get("k", 1))
         return 1 if ctx.violations else 0
     print("re-run ./check C15")
     return 1
